@@ -39,6 +39,12 @@ RULE = ('12 % of the runs: sequential storage histories (the shared '
         'conflicting client can commit afterwards; non-trivial = >= 2 '
         'commits on a shared cell and >= 1 switch; distinct = schedule '
         'trace hash')
+RULE += ('  '
+         'Later additions: bystander tasks asking the storage itself '
+         "with an oracle on their answers; the serial a connection's "
+         'copy carries after its commit; on MappingStorage packing '
+         'threads beside the committers with line-level pre-emption '
+         'inside the storage. ')
 BUDGET = {'quick': {'runs': 6000, 'wall': 300, 'chunk': 20},
           'thorough': {'runs': 450000, 'wall': 1200, 'chunk': 100}}
 ASSUMPTIONS = [
